@@ -20,7 +20,8 @@ EXPLANATION = (
     'iteration after the site (normal, Exception, BaseException); R4 a part whose code object is a coroutine is always driven by '
     'asyncio.run; R5 the docstring text reaches every indentation measurement only after str.expandtabs (taint analysis with the '
     'callees of parse inlined). That the parts\' union equals the program for every program (slice arithmetic over AST line numbers) '
-    'is not decided.')
+    'is not decided.'
+    " R9 the producer of the compile-mode hint and its consumer agree: for every hint other than exec the last statement of the chunk is cut into a part of its own before the hint becomes that part's compile mode.")
 DECIDES = ['FLOW one namespace', 'PATH-COUNT exec sites per iteration', 'lexical capture + MUST-PASS stdout log', 'FLOW coroutine -> asyncio.run', 'taint: expandtabs before indentation']
 NOT_DECIDED = ['that slicing at PS1 lines / directive breaks partitions every program (value-level index arithmetic)', 'semantics of the executed code itself']
 
